@@ -55,7 +55,7 @@ def _ip(rng):
 
 
 def gen_groups(rng, tier, escalate):
-    n = 6000 if (tier == "thorough" or escalate) else 700
+    n = 6000 if tier == "thorough" else (2800 if escalate else 700)
     cases = []
     for i in range(n):
         malformed = i % 6 == 5
@@ -311,7 +311,7 @@ def _expect(tab, op, a, b=None):
 
 
 def gen_ports(rng, tier, escalate):
-    big = tier == "thorough" or escalate
+    big = tier == "thorough"
     tabs = gen_c20.tables()
     cases = []
 
@@ -349,7 +349,7 @@ def gen_ports(rng, tier, escalate):
                 op = rng.choice(OPS[:4])
                 add(proto, _spec(op, name), sem=(op, name, None))
     # random numeric arguments and blanks variants
-    for _ in range(12000 if big else 900):
+    for _ in range(12000 if big else (3600 if escalate else 900)):
         proto = rng.choice(["tcp", "udp"])
         op = rng.choice(OPS)
         a = rng.choice([rng.randint(1, 65535), rng.randint(1, 1100), rng.choice(PB)])
